@@ -60,6 +60,18 @@ partial def encVal : Val → Json
 def decField (j : Json) : Except String Field := do
   return { name := ← fieldNat j "n", ty := ← decTy (← field j "ty"), required := ← fieldBool j "req" }
 
+partial def decPred (j : Json) : Except String FieldPred := do
+  let k ← fieldStr j "k"
+  match k with
+  | "any" => return .any
+  | "names" => return .names (← (← fieldArr j "names").mapM asNat)
+  | "ty_cls" => return .tyCls (← fieldNat j "c")
+  | "under" => return .under (← fieldNat j "owner") (← decPred (← field j "p"))
+  | "or" => return .or (← decPred (← field j "a")) (← decPred (← field j "b"))
+  | "and" => return .and (← decPred (← field j "a")) (← decPred (← field j "b"))
+  | "not" => return .not (← decPred (← field j "a"))
+  | _ => throw s!"bad field predicate {k}"
+
 def decPolicy (j : Json) : Except String Policy := do
   let k ← fieldStr j "k"
   match k with
@@ -67,6 +79,9 @@ def decPolicy (j : Json) : Except String Policy := do
   | "allow_all" => return .allowAll
   | "forbid_all" => return .forbidAll
   | "allow_names" => return .allowNames (← (← fieldArr j "names").mapM asNat)
+  | "rules" =>
+    return .rules (← (← fieldArr j "rules").mapM fun r => do
+      return { pred := ← decPred (← field r "pred"), allow := ← fieldBool r "allow" })
   | _ => throw s!"bad policy {k}"
 
 def decRecipe (j : Json) : Except String (List Prov) := do
@@ -127,7 +142,11 @@ def handle : Protocol.Handler := fun j => do
       let src ← decTy (← field c "src")
       let dst ← decTy (← field c "dst")
       let vals ← (← (fieldArr c "vals" <|> pure [])).mapM decVal
-      return encAnswer (getConverter cfg fuel src dst) vals
+      -- a case may carry its own user recipe of policy providers (the world is shared)
+      let cfg' ← match c.getObjVal? "policy" with
+        | .ok pj => do pure { cfg with policy := ← decPolicy pj }
+        | .error _ => pure cfg
+      return encAnswer (getConverter cfg' fuel src dst) vals
     return listJ out
   | "tables" =>
     -- the tables the specification and the model rely on, for validation against the interpreter
